@@ -8,15 +8,21 @@ PROP = {'gen': [],
  'props_module': 'Props.C10',
  'corr_check': 'SNT.Corr.C10Corr.c10_check (model View/ViewModel.v vs surf_n_term::view::{Flex, FlexRef, Container, Frame, ScrollBar, Tag, '
                'Dynamic, Text, Layout::apply_to, FindPath, ViewDeserializer} and the View impls of str, (), RGBA, Option, Either, Image, Glyph)',
- 'level_text': 'Coq theorems, by induction over view trees (text, flex, container, frame, scroll bar, tag, dynamic, option/either, fill, '
-               'image, glyph; any constraint with min <= max; both glyph settings): layout returns a tree (no underflow, no division by '
-               'zero, no invalid clamp); text/flex/container/image/glyph/fill sizes lie within the constraint; render with any layout '
-               'tree never panics and changes nothing outside its surface, with layout\'s own tree it completes; every probe leaf is '
-               'handed exactly the window the layout tree records for it and every leaf kind paints only inside its recorded rectangle; '
-               'find_path follows the first child containing the position. '
+ 'level_text': 'Coq theorems, by induction over view trees (text, str, flex, container, frame, scroll bar, tag, dynamic, option/either, '
+               'fill, unit, image, glyph, surface view, half-block image, cached view; any constraint with min <= max, extents up to '
+               'usize::MAX; both glyph settings; any pixels-per-cell; any nine frame fragments; ANY flex share function capped by the '
+               'remaining space as the repaired code caps it): layout returns a tree (no underflow, no division by zero, no invalid '
+               'clamp); text/flex/container/image/glyph/fill/surface sizes lie within the constraint; render with any layout tree never '
+               'panics and changes nothing outside its surface, with layout\'s own tree it completes; every leaf of every kind is handed, '
+               'in drawing order, exactly the window the layout tree records for it and paints only inside it; find_path follows the '
+               'first child containing the position; in every tree layout produces siblings are pairwise disjoint, so the order of '
+               'children does not matter for hit-testing. '
                'Model tied to the code by a differential run over trees built through constructors, FlexRef and JSON.',
  'level_note': 'Trusted: Coq kernel + vm_compute; hand-written model validated by the correspondence run; extents saturate at usize::MAX as in '
-               'the repaired code; flex factors dyadic (see assumptions). No axioms (closed).',
+               'the repaired code. The theorems do not depend on the f64 arithmetic of the flex share: they hold for every share '
+               'function (no binary64/Flocq development: the intermediate doubles are not always finite, e.g. 1.0/1e-320 = +inf, so the '
+               'cap by the remaining space in the code is what bounds the share, and that cap is modelled literally). The correspondence '
+               'run instantiates the share with exact rounding for dyadic factors (see assumptions). No axioms (closed).',
  'technique': 'Coq proof (induction over the view tree) + model/implementation correspondence',
  'design_ref': 'DESIGN.md 6.10',
  'n_quick': 2000,
@@ -26,7 +32,14 @@ PROP = {'gen': [],
  'trusted_base': [KERNEL,
                   'hand-written model View/ViewModel.v, tied to the code by the correspondence run',
                   HARNESS],
- 'assumptions': ['flex factors of the model are positive numerators over a common power-of-two denominator with remain * factor < 2^53, '
-                 'for which the f64 share arithmetic of flex_layout is exact; trees with other doubles (non-dyadic, extreme ratios) and '
-                 'flex layouts under extents >= 2^40 are run against the property predicate only (no model agreement)',
-                 'scroll bar fractions are rationals num/den (den = 0 meaning ScrollBarPosition::from_counts with total 0)']}
+ 'assumptions': ['correspondence only (the theorems hold for every share function): flex factors of compared cases are positive numerators '
+                 'over a common power-of-two denominator with remain * factor < 2^53, for which the f64 share arithmetic of flex_layout is '
+                 'exact; trees with other doubles (non-dyadic, subnormal, huge, inf/NaN: the latter two are filtered to non-flex by the '
+                 'repaired code) and flex layouts under extents >= 2^40 are run against the property predicates only',
+                 'scroll bar fractions are rationals num/den (den = 0 meaning ScrollBarPosition::from_counts with total 0)',
+                 'domain: surfaces that exist in memory (height * width cells allocated); layout extents may be anything up to usize::MAX '
+                 'and are only ever added/subtracted saturating or clipped against the surface (Layout::apply_to); the products '
+                 'height * width in Shape::from, SurfaceOwned::new, Size::area and Image::size_cells act on existing surfaces/images, never '
+                 'on layout extents; Image::render multiplies the extent of the (existing) surface by pixels-per-cell, which fits usize for '
+                 'any surface not larger than the terminal the ratio was computed from (compared cases: ratios 1..40 x 1..24); '
+                 'Offscreen::draw_view, which allocates a surface of the laid-out size, is outside the model']}
